@@ -120,7 +120,7 @@ pub fn run(tier: Tier) -> ! {
         }
     };
     let sigma = ['a', 'あ', '-', '|', ' ', '/', '\\'];
-    let tagpool: Vec<Option<&str>> = vec![None, Some("x"), Some("/"), Some("-"), Some("|"), Some(" "), Some("\\"), Some("a-b"), Some("あ")];
+    let tagpool: Vec<Option<&str>> = vec![None, Some("x"), Some("/"), Some("-"), Some("|"), Some(" "), Some("\\"), Some("a-b"), Some("あ"), Some("\u{3000}"), Some("a\tb")];
     // (a) untagged, all texts x all label vectors
     let texts = gen::strings(&sigma, 1, tier.pick(4, 5));
     texts.par_iter().for_each(|text| {
@@ -175,7 +175,7 @@ pub fn run(tier: Tier) -> ! {
     chk.sample(json!({"text": "あ|a", "labels": " -", "tags": [[], [" "], ["\\"]]}));
     chk.assume("sentences are built with from_raw + boundaries_mut + reset_tags + tags_mut; tags are non-empty and NUL-free");
     chk.finish(
-        "(a) all texts over {a,あ,-,|,space,/,\\\\} x all {-,|,space} label vectors, untagged; (b) reduced text alphabet x all labels x every <=1-tag assignment per character over 9 hostile tags; (c) texts of <=2 characters x every <=2-tag list per character; non-trivial = a delimiter in the text or any tag; distinct by construction",
+        "(a) all texts over {a,あ,-,|,space,/,\\\\} x all {-,|,space} label vectors, untagged; (b) reduced text alphabet x all labels x every <=1-tag assignment per character over 11 hostile tags (incl. U+3000 and a tab); (c) texts of <=2 characters x every <=2-tag list per character; non-trivial = a delimiter in the text or any tag; distinct by construction",
         true,
         &replay,
     )
